@@ -876,7 +876,12 @@ var c01RawSnippets = []string{
 	"on: push\njobs:\n  j:\n    runs-on: x\n    steps:\n      - run: \"\\n\\n${{ x. }}\"\n", "on: push\njobs:\n  j:\n    runs-on: x\n    steps:\n      - run: \"a\\\n        b ${{ x. }}\"\n",
 	"on: push\njobs:\n  j:\n    runs-on: x\n    steps:\n      - run: 'a\n\n        ${{ x. }}'\n", "on: push\njobs:\n  j: &j\n    runs-on: x\n    steps: &s\n      - run: echo\n  k: *j\n  l:\n    <<: *j\n    steps: *s\n",
 	"on: push\njobs:\n  j:\n    <<: {runs-on: x}\n    <<: {steps: []}\n", "on: push\njobs:\n  j:\n    <<: [{runs-on: x}, {steps: [{run: a}]}]\n", "on: push\njobs:\n  j:\n    <<: x\n",
-	"on: push\njobs:\n  ? |\n    block key\n  : \n    runs-on: x\n    steps: []\n", "0: 1\n", "1.5: x\n", "true: x\nnull: y\n~: z\n", "on: 1\njobs: 2\n", "on: ~\njobs: ~\n", "on:\njobs:\n", "on: push\njobs:\n  j:\n",
+	"on: push\njobs:\n  ? |\n    block key\n  : \n    runs-on: x\n    steps: []\n",
+	// jobs of mixed kind: a reusable workflow call together with the keys of an ordinary job (and the other way round)
+	"on: push\njobs:\n  call:\n    uses: ./.github/workflows/reusable.yml\n    with:\n      a: ${{ steps.s1.outputs.x }}\n    runs-on: ubuntu-latest\n    outputs:\n      o: ${{ steps.s1.outputs.x }}\n    steps:\n      - id: s1\n        run: echo\n      - id: s2\n        uses: ./act\n        with:\n          a: ${{ steps.s1.outputs.x }}\n      - run: echo ${{ steps.s2.outputs.y }}\n  after:\n    needs: [call]\n    runs-on: ubuntu-latest\n    steps:\n      - run: echo ${{ needs.call.outputs.o }}\n",
+	"on: push\njobs:\n  call:\n    steps:\n      - id: s1\n        run: echo\n    uses: owner/repo/.github/workflows/w.yml@v1\n    secrets: inherit\n    strategy:\n      matrix:\n        x: [1]\n    services:\n      db:\n        image: x\n    container: ${{ matrix.x }}\n    env:\n      A: ${{ steps.s1.outputs.x }}\n",
+	"on: push\njobs:\n  j:\n    runs-on: ubuntu-latest\n    with:\n      a: ${{ steps.s1.outputs.x }}\n    secrets:\n      s: ${{ secrets.S }}\n    steps:\n      - id: s1\n        run: echo\n        uses: actions/checkout@v4\n        with:\n          a: b\n        shell: bash\n        working-directory: x\n",
+	"on: push\njobs: {a: {uses: ./x.yml, steps: [{id: a, run: echo}, {id: A, run: echo}]}, b: {needs: a, uses: ./x.yml, steps: [{id: b, uses: ./act}]}}\n", "0: 1\n", "1.5: x\n", "true: x\nnull: y\n~: z\n", "on: 1\njobs: 2\n", "on: ~\njobs: ~\n", "on:\njobs:\n", "on: push\njobs:\n  j:\n",
 }
 
 func c01RawFamily() *c01Family {
